@@ -786,7 +786,7 @@ func flagPackRule(p *Program, r *Report, rule string, roots []*ssa.Function, min
 		ok := s.byteIdx == ref.byteIdx && s.bitP == ref.bitP && strings.HasPrefix(s.byteIdx, "/(ind(#0,#1),#8)") && strings.HasPrefix(s.bitP, "%(ind(#0,#1),#8)")
 		r.Add(rule, FnName(s.fn), "flag bit i lives in byte i/8 at bit position i%8", s.pos, ok, "byte "+s.byteIdx+", bit "+s.bitP)
 		if s.size != "" {
-			r.Add(rule, FnName(s.fn), "flag bytes number ⌈bits/8⌉", s.pos, strings.HasPrefix(s.size, "/(+(#7,len(") || strings.HasPrefix(s.size, "/(+(len("), s.size)
+			r.Add(rule, FnName(s.fn), "flag bytes number ⌈bits/8⌉", s.pos, (strings.HasPrefix(s.size, "/(+(#7,len(") || strings.HasPrefix(s.size, "/(+(len(")) && strings.HasSuffix(s.size, ",#8)"), s.size)
 		}
 	}
 	r.Floor(rule, floor)
